@@ -1,6 +1,7 @@
 import OapiVerif.Model.Walks
 import OapiVerif.Proofs.Responses
 import OapiVerif.Gen.C02
+import OapiVerif.Proofs.SchemaOrder
 /-!
 C02 — Generation is deterministic.
 
@@ -156,3 +157,20 @@ example : ([([98], 1), ([97], 2)] : List (Key × Nat)).Perm [([97], 2), ([98], 1
 example : (([([98], 1), ([97], 2)] : List (Key × Nat)).map (·.1)).Nodup := by decide
 
 end OapiVerif.Walks
+
+namespace OapiVerif.SchemaOrder
+open OapiVerif.Walks
+
+/-- `SortedSchemaKeys` — the order in which component schemas and the properties of an object are declared, `x-order`
+included — does not depend on the iteration order of the dictionary: any two hand-out orders of the same entries give
+the same key sequence. -/
+theorem C02_schema_keys_perm_invariant (m₁ m₂ : List Entry) (h : m₁.Perm m₂) (hnd : (m₁.map (·.key)).Nodup) :
+    sortedSchemaKeys m₁ = sortedSchemaKeys m₂ := by
+  unfold sortedSchemaKeys
+  rw [sortedEntries_perm_invariant m₁ m₂ h hnd]
+
+/-- the comparison on a dictionary of four: a negative order first, no order = 4 before order 5, names among equals -/
+example : ole 4 ⟨[99], some (-1)⟩ ⟨[98], none⟩ = true ∧ ole 4 ⟨[98], none⟩ ⟨[100], none⟩ = true ∧
+    ole 4 ⟨[100], none⟩ ⟨[97], some 5⟩ = true ∧ ole 4 ⟨[97], some 5⟩ ⟨[98], none⟩ = false := by decide
+
+end OapiVerif.SchemaOrder
